@@ -464,7 +464,7 @@ def run_item(item):
         seqs = _extension(item["tier"])[item["lo"] : item["hi"]]
     else:
         seqs = [_seq_at(i) for i in range(item["lo"], item["hi"])]
-    out = {"evaluations": 0, "transitions": 0, "states": set(), "nontrivial": set(), "outcomes": {}, "violations": [], "samples": [], "extra": {"caps_hit": 0, "engine_calls": 0, "rejections_observed": 0, "events_observed": 0}}
+    out = {"evaluations": 0, "transitions": 0, "states": set(), "nontrivial": set(), "outcomes": {}, "violations": [], "samples": [], "extra": {"caps_hit": 0, "nontrivial_cases": 0, "engine_calls": 0, "rejections_observed": 0, "events_observed": 0}}
     for b in range(0, len(seqs), BATCH):
         batch = seqs[b : b + BATCH]
         res, fatal, obs = _run_batch(batch)
@@ -491,6 +491,7 @@ def run_item(item):
             out["extra"]["events_observed"] += nev
             if nrej and nev:
                 out["nontrivial"].add(dg)
+                out["extra"]["nontrivial_cases"] += 1
             cls = f"events={min(nev, 3)}|rej={'+'.join(sorted(set(facts['rejections']))) or '-'}"
             out["outcomes"][cls] = out["outcomes"].get(cls, 0) + 1
             if viol is not None:
